@@ -48,6 +48,7 @@ type FuncContract struct {
 	ensures  []*Clause
 	modifies []*Clause // expressions naming pointers / slices whose targets may change
 	modAll   bool      // modifies *
+	callbacks []*Clause // callback <param> preserves <expr>
 	loops    map[int]*LoopContract
 	closures map[int]*FuncContract
 	trusted  bool // body not verified; contract assumed (listed)
@@ -256,7 +257,7 @@ func installUniverse() {
 // ---------------------------------------------------------------------------------------
 // Contract text.
 
-var clauseKinds = map[string]bool{"step": true, "requires": true, "ensures": true, "invariant": true, "decreases": true,
+var clauseKinds = map[string]bool{"callback": true, "step": true, "requires": true, "ensures": true, "invariant": true, "decreases": true,
 	"modifies": true, "props": true, "trusted": true, "pure": true, "inline": true, "unroll": true, "lemma": true,
 	"assume": true, "nopanic": true, "heapframe": true}
 
@@ -1112,6 +1113,19 @@ func (p *Program) fillContract(fc *FuncContract, clauses []*rawClause, body *ast
 			} else {
 				fc.ensures = append(fc.ensures, cl)
 			}
+		case "callback":
+			// callback <param> preserves <expr>: calls through the function-valued parameter leave <expr> unchanged
+			f := strings.Fields(rc.text)
+			if len(f) < 3 || f[1] != "preserves" {
+				return fmt.Errorf("%s: want `callback <param> preserves <expr>`", rc.where)
+			}
+			sub := &rawClause{kind: "callback", text: strings.TrimSpace(strings.SplitN(rc.text, "preserves", 2)[1])}
+			cl, err := p.checkClauseAny(fc, sub, rc.where, body.Rbrace)
+			if err != nil {
+				return err
+			}
+			cl.label = f[0]
+			fc.callbacks = append(fc.callbacks, cl)
 		case "modifies":
 			if strings.TrimSpace(rc.text) == "*" {
 				fc.modAll = true
